@@ -330,6 +330,9 @@ class Gen:
         md.ice_options = o.get("ice_options")
         fps = [mk("rtcdtlstransport.RTCDtlsFingerprint", algorithm="sha-256", value="AA:BB:CC:01"),
                mk("rtcdtlstransport.RTCDtlsFingerprint", algorithm="sha-384", value="DD:EE:FF:02")][: o.get("nfp", 2)]
+        if o.get("odd_fp"):
+            # hash functions the DTLS layer does not use are still part of the description
+            fps = [mk("rtcdtlstransport.RTCDtlsFingerprint", algorithm="sha-1", value="01:02:03"), mk("rtcdtlstransport.RTCDtlsFingerprint", algorithm="SHA-256", value="aa:bb")] + fps
         md.dtls = mk("rtcdtlstransport.RTCDtlsParameters", fingerprints=fps, role=o.get("role", "auto"))
         return md
 
@@ -369,6 +372,7 @@ class Gen:
             ("fmtp: none", dict(params={})),
             ("msid absent", dict(msid=None)),
             ("multi-token rtcp-fb parameter", dict(fb_multi=True)),
+            ("fingerprints with other hash functions / upper-case names", dict(odd_fp=True)),
             ("separators inside ssrc attribute values", dict(ssrc_sep=True)),
             ("mid containing a colon", dict(mid_override="a:1")),
         ]
